@@ -81,7 +81,7 @@ FAMILIES = ["static", "static", "static-so", "static", "swaps", "swaps", "swaps"
 
 def plan(tier):
     classes = ["family:static", "family:static-so", "family:swaps", "family:ofs-opt", "family:ofs-evolve", "stacked",
-               "flat", "conserve_qn:True", "conserve_qn:False", "swap_jw:True", "swap_jw:False", "model:qc",
+               "flat", "conserve_qn:True", "conserve_qn:False", "swap_jw:True", "swap_jw:False", "model:qc", "swap_jw:without-quantum-numbers",
                "model:spin", "model:vibronic", "spelling:library", "spelling:sigma", "ofs:ofs_s", "ofs:ofs_d",
                "ofs:ofs_ds", "ofs:ofs_debug", "fcidump:4fold", "fcidump:8fold", "swapped-in-optimisation",
                "swapped-in-evolution", "schedule:truncating-sweeps-first", "norb:1", "norb:2", "norb:3"]
@@ -810,8 +810,12 @@ def make_ofs_problem(ctx, evolve=False):
     rng = ctx.rng
     r = rng.random()
     if r < 0.35:
+        # Jordan-Wigner swaps with and without quantum numbers (the sign of the doubly occupied block must not depend on labels)
+        cq = bool(rng.random() < 0.65)
+        if not cq:
+            ctx.cls("swap_jw:without-quantum-numbers")
         prob = make_qc_problem(ctx, True, norb=int(rng.choice([1, 2, 2, 3, 3] if not evolve else [1, 2, 2, 2, 3])),
-                               spelling="library" if rng.random() < 0.55 else "sigma")
+                               spelling="library" if rng.random() < 0.55 else "sigma", conserve_qn=cq)
     elif r < 0.5:
         prob = make_qc_problem(ctx, False, norb=int(rng.choice([2, 2, 3])),
                                conserve_qn=bool(rng.random() < 0.8))
